@@ -56,6 +56,26 @@ def showH {β : Type} (f : β → String) : HRes β → String
   | .panic => "PANIC"
   | .fuel => "FUEL"
 
+/-- Recording callbacks of the driver (the harness uses the same): state = (number of calls,
+log of the arguments); the returned value carries the call number. -/
+abbrev RecSt := Nat × List (V Nat)
+def recWrap (st : RecSt) (v : V Nat) : RecSt × V Nat :=
+  ((st.1 + 1, st.2 ++ [v]), .list [.leaf (100 + st.1), v])
+def recFn (st : RecSt) (o : Nat) (x y : V Nat) : RecSt × V Nat :=
+  ((st.1 + 1, st.2 ++ [.tok o]), .list [.tok o, x, y, .leaf (100 + st.1)])
+
+def showLog (st : RecSt) : String := " log=" ++ showVp 1000 (.list st.2)
+
+def hopOf (s : String) : Option HOp :=
+  if s = "list" then some .list else if s = "listop" then some .listop
+  else if s = "rangeop" then some .rangeop else if s = "bopnr" then some .bopnr
+  else if s = "bopr" then some .bopr else none
+
+def showHOut : HOut RecSt Nat → String
+  | .lst st r => showH (fun l => showVp 1000 (.list l)) r ++ showLog st
+  | .visited vs p => "visited " ++ showVp 1000 (.list vs) ++ " panic=" ++ (if p then "1" else "0")
+  | .val st r => showH (showVp 1000) r ++ showLog st
+
 def handleTplh (fields : List String) : String :=
   match fields with
   | op :: vs :: _ =>
@@ -69,30 +89,11 @@ def handleTplh (fields : List String) : String :=
           if op = "bexnr" then showH showE (binaryExprNR inp) else showH showE (binaryExprR fuel inp)
         | _ => "bad-input"
       else
-        match sxToV fuel sx with
-        | some (.list inp) =>
-          let sl := fun (l : List (V Nat)) => showVp 1000 (.list l)
-          let fn := fun (o : Nat) (x y : V Nat) => V.list [.tok o, x, y]
-          if op = "list" then showH sl (listOf inp)
-          else if op = "listop" then showH sl (listOp (fun v => V.list [.leaf 9, v]) inp)
-          else if op = "rangeop" then
-            let r := rangeOp inp
-            "visited " ++ sl r.1 ++ " panic=" ++ (if r.2 then "1" else "0")
-          else if op = "bopnr" then showH (showVp 1000) (binaryOpNR fn inp)
-          else if op = "bopr" then showH (showVp 1000) (binaryOpR fn fuel inp)
-          else "bad-op"
-        | _ => "bad-input"
+        match hopOf op, sxToV fuel sx with
+        | some hop, some (.list inp) => showHOut (applyOp recWrap recFn (0, []) fuel hop inp)
+        | none, _ => "bad-op"
+        | _, _ => "bad-input"
   | _ => "bad-input"
-
-def hopOf (s : String) : Option HOp :=
-  if s = "list" then some .list else if s = "listop" then some .listop
-  else if s = "rangeop" then some .rangeop else if s = "bopnr" then some .bopnr
-  else if s = "bopr" then some .bopr else none
-
-def showHOut : HOut Nat → String
-  | .lst r => showH (fun l => showVp 1000 (.list l)) r
-  | .visited vs p => "visited " ++ showVp 1000 (.list vs) ++ " panic=" ++ (if p then "1" else "0")
-  | .val r => showH (showVp 1000) r
 
 /-- `tplh2 <ops,…> <value> …`: successive helper calls on the same tree. -/
 def handleTplh2 (fields : List String) : String :=
@@ -111,8 +112,7 @@ def handleTplh2 (fields : List String) : String :=
       else
         match mapM? hopOf names, sxToV fuel sx with
         | some ops, some (.list inp) =>
-          let fn := fun (o : Nat) (x y : V Nat) => V.list [.tok o, x, y]
-          " ; ".intercalate ((seqOuts (fun v => V.list [.leaf 9, v]) fn fuel ops inp).map showHOut)
+          " ; ".intercalate ((seqOuts recWrap recFn (0, []) fuel ops inp).map showHOut)
         | _, _ => "bad-input"
   | _ => "bad-input"
 
